@@ -4,6 +4,8 @@ package c15
 import (
 	"encoding/json"
 	"fmt"
+	"runtime"
+	"strings"
 	"sync"
 
 	"verif/harness/core"
@@ -16,6 +18,10 @@ type Case struct {
 	Cfg      script.Config   `json:"cfg"`
 	Sessions [][]script.CMsg `json:"sessions"`
 	Schedule []int           `json:"schedule,omitempty"` // owned interleaving (nil = free running)
+	// Staller: one more connection that is stuck half way through something while the sessions
+	// run: "oversized-partial" (header + part of the body of an oversized message),
+	// "message-partial" (part of an ordinary message), "" (none). It must not affect the others.
+	Staller string `json:"staller,omitempty"`
 }
 
 type sessResult struct {
@@ -110,6 +116,23 @@ func Run(c Case) core.Result {
 
 	// concurrent run
 	cr := newRunner(c.Cfg, c.Sessions)
+	if c.Staller != "" {
+		res.Labels = append(res.Labels, "staller="+c.Staller)
+		st := cr.env.NewSess()
+		if r := st.Startup([][2]string{{"user", "staller"}}, nil); r.State == memnet.Idle {
+			lim := c.Cfg.Limit
+			if lim <= 0 {
+				lim = 1 << 24
+			}
+			switch c.Staller {
+			case "oversized-partial":
+				st.C.Send(pgwire.RawFrame('Q', uint32(lim+4+5000), []byte("stalled body")))
+			case "message-partial":
+				st.C.Send(pgwire.Query("select 1")[:7])
+			}
+			st.C.WaitIdle(script.Guard)
+		}
+	}
 	if c.Schedule == nil {
 		var wg sync.WaitGroup
 		startGate := make(chan struct{})
@@ -143,6 +166,19 @@ func Run(c Case) core.Result {
 		}
 	}
 	cr.finish()
+	// a session that got no answer: is a library goroutine parked on a lock (held by another connection)?
+	for i := range cr.res {
+		if cr.res[i].inc != "" {
+			buf := make([]byte, 2<<20)
+			dump := string(buf[:runtime.Stack(buf, true)])
+			for _, g := range strings.Split(dump, "\n\n") {
+				if strings.Contains(g, "jeroenrinzema/psql-wire") && (strings.Contains(g, "sync.(*Mutex).Lock") || strings.Contains(g, "sync.(*RWMutex).Lock") || strings.Contains(g, "sync.(*RWMutex).RLock")) {
+					cr.env.Stop()
+					return core.Fail("C15/isolation/blocked-by-other-connection", "session %d gets no answer: its goroutine waits for a lock while another connection (%s) is stalled:\n%s", i, c.Staller, clip(g))
+				}
+			}
+		}
+	}
 	panics := cr.env.Panics()
 	cr.env.Stop()
 	if len(panics) > 0 {
